@@ -326,8 +326,17 @@ def handle (line : Json) : Json :=
   if strD cs "op" == "sequence" then
     let steps := arrD cs "steps"
     let impls := arrD impl "steps"
-    let answers := (steps.zip (impls ++ List.replicate (steps.length - impls.length) Json.null)).map fun (st, im) =>
-      handleOne (cs.mergeObj st) im
+    let impls' := impls ++ List.replicate (steps.length - impls.length) Json.null
+    -- a `reload` step replaces the requester metadata in force for the steps after it
+    let reloadAnswer := fun (im : Json) =>
+      Json.mkObj [("model", Json.mkObj [("out", Json.mkObj [("r", "reloaded")]), ("unchanged", true)]),
+        ("path", "reload/-/-/reloaded"), ("features", jstrs ["reload"]),
+        ("spec_model", true), ("spec_impl", strD im "r" == "reloaded")]
+    let folded := (steps.zip impls').foldl (fun (acc : List Json × Json) (p : Json × Json) =>
+      if strD p.1 "op" == "reload" then
+        (reloadAnswer p.2 :: acc.1, acc.2.mergeObj (Json.mkObj [("sps", jarr (arrD p.1 "sps"))]))
+      else (handleOne (acc.2.mergeObj p.1) p.2 :: acc.1, acc.2)) (([] : List Json), cs)
+    let answers := folded.1.reverse
     let okOf := fun (k : String) (a : Json) => boolD a k false
     let firstBad := (answers.zipIdx.find? (fun (a, _) => !okOf "spec_impl" a)).map (·.2)
     Json.mkObj [("model", Json.mkObj [("steps", jarr (answers.map fun a => (obj? a "model").getD Json.null))]),
